@@ -102,13 +102,15 @@ func (a *AES128CBC) SerializeTo(b gopacket.SerializeBuffer, _ gopacket.Serialize
 	}
 	trailer[padLength] = uint8(padLength)
 
-	toEncrypt := b.Bytes() // includes confidentiality trailer
-
 	// secure random IV for confidentiality header
 	iv, err := b.PrependBytes(a.cipher.BlockSize())
 	if err != nil {
 		return err
 	}
+	// includes confidentiality trailer; must be taken after prepending the IV,
+	// which can reallocate the buffer and leave earlier slices pointing at the
+	// old copy
+	toEncrypt := b.Bytes()[a.cipher.BlockSize():]
 	if _, err := rand.Read(iv); err != nil {
 		return err
 	}
